@@ -107,7 +107,12 @@ def tokenise(text, style, names):
             elif set(s) == {"-"}:
                 out.append(["dashes", 0, None, "none"])
             elif re.match(r"-{3,}\S", s) and where == "returns":
-                out.append(["dashes_glued", 0, s.lstrip("-"), "none"])
+                glued = s.lstrip("-")
+                if glued.startswith(" "):       # the DESCRIPTION is what got glued to the underline (no type was written)
+                    out.append(["dashes_glued", 0, None, "none"])
+                    out.append(["ndoc", 0, None, lex_of(glued.strip())])
+                else:
+                    out.append(["dashes_glued", 0, glued, "none"])
             elif where == "params" and not ln.startswith(" "):
                 m = re.match(r"(\w+)(?: : (.*))?$", s)
                 out.append(["nname", idx.get(m.group(1), -1) if m else -1, (m.group(2) if m else None) or None, "none"])
